@@ -14,6 +14,7 @@ inductive Err where
   | memoryLimit
   | keySpace
   | failedAlloc
+  | serde        -- a deserialiser returned `Err(..)` (not a `LassoError`)
   deriving DecidableEq, Repr, Inhabited
 
 /-- What is undefined behaviour (or an internal `unreachable!`/`debug_assert!`/`unwrap` on an
